@@ -146,3 +146,19 @@ Print Assumptions C01_wrap_ordinal_spec.
 Theorem C01_fixed_ordinal_roundtrip : forall nmin o, fixed_to_ordinal nmin (fixed_from_ordinal nmin o) = o.
 Proof. exact fixed_ordinal_roundtrip. Qed.
 Print Assumptions C01_fixed_ordinal_roundtrip.
+
+(* EFloat parameter derivation: the context model uses the same derived (p, emin, maxval) as the encoding
+   model of C16, whose theorems (C16_efloat_maxval_le8 etc.) say that this maxval is the largest finite
+   value of the published bit layout *)
+From FpyV Require Import Num.Formats Num.CtxFormatsBridge.
+Theorem C01_ext_to_mpb_agree : forall es nbits einf nk eo,
+  Ctx.ext_to_mpb es nbits einf nk eo =
+  bind (Formats.ext_to_mpb (EF es nbits einf (nk_conv nk) eo))
+       (fun m => Ok (b_pmax m, b_emin m, b_pos m)).
+Proof. exact ext_to_mpb_agree. Qed.
+Print Assumptions C01_ext_to_mpb_agree.
+
+Theorem C01_efloat_valid_agree : forall es nbits einf nk,
+  Ctx.efloat_valid es nbits einf nk = Formats.format_is_valid es nbits einf (nk_conv nk).
+Proof. exact efloat_valid_agree. Qed.
+Print Assumptions C01_efloat_valid_agree.
